@@ -7,7 +7,8 @@
       "dropped, stayed disconnected, resumed: the resume outputs exactly what was appended";
    4. bye and expiry are final for every continuation: session ids are never handed out twice.
 
-   The model's alphabet contains no chat-refresh notice (is_chat_refresh is constantly false and
+   (Written when the model's alphabet contained no chat-refresh notice; it now does: enqueue keeps one.)
+   The model's alphabet contained no chat-refresh notice (is_chat_refresh was constantly false and
    deliver_to_session never merges), so "modulo merge" is plain append here.
 
    Organisation: one relation between the hub before and after a model function, for a fixed
@@ -258,6 +259,16 @@ Proof.
   destruct (filter_seen (s_seen s) l) as [keep seen']. injection HX as <- <-. repeat split; reflexivity.
 Qed.
 
+(* the queue only ever grows at the end; a chat-refresh notice is dropped when one is queued already *)
+Lemma enqueue_ext q m : exists l, enqueue q m = q ++ l.
+Proof. unfold enqueue. destruct (is_chat_refresh m && existsb is_chat_refresh q); [exists []; now rewrite app_nil_r|exists [m]; reflexivity]. Qed.
+Lemma enqueue_plain q m : is_chat_refresh m = false -> enqueue q m = q ++ [m].
+Proof. unfold enqueue. now intros ->. Qed.
+Lemma enqueue_first q m : existsb is_chat_refresh q = false -> enqueue q m = q ++ [m].
+Proof. unfold enqueue. intros ->. now rewrite andb_false_r. Qed.
+Lemma enqueue_merged q m : is_chat_refresh m = true -> existsb is_chat_refresh q = true -> enqueue q m = q.
+Proof. unfold enqueue. now intros -> ->. Qed.
+
 Lemma rel0_deliver_to_session sid h x m : rel0 sid h (fst (deliver_to_session h x m)).
 Proof.
   unfold deliver_to_session. destruct (get_sess h x) as [s|] eqn:Hs; [|apply rel0_refl].
@@ -267,7 +278,7 @@ Proof.
   - destruct (s_conn s1) as [c|] eqn:Hc1; cbn [fst].
     + apply rel0_put with s; [exact Hs|apply sessA_same; congruence].
     + apply rel0_put with s; [exact Hs|]. split; [cbn; congruence|].
-      exists [mm]. split; [cbn; now rewrite Hp|]. intros Hne. congruence.
+      destruct (enqueue_ext (s_pending s1) mm) as [l Hl]. exists l. split; [cbn; now rewrite Hl, Hp|]. intros Hne. congruence.
   - apply rel0_put with s; [exact Hs|now apply sessA_same].
 Qed.
 
@@ -1085,7 +1096,7 @@ Lemma deliver_to_session_eq h x m t : get_sess h x = Some t ->
   | None => (put_sess h x (seen_after t m), [])
   | Some mm => match s_conn t with
                | Some c => (put_sess h x (seen_after t m), [ToConn c mm])
-               | None => (put_sess h x (sess_pending (seen_after t m) (s_pending t ++ [mm])), [])
+               | None => (put_sess h x (sess_pending (seen_after t m) (enqueue (s_pending t) mm)), [])
                end
   end.
 Proof.
@@ -1111,14 +1122,14 @@ Theorem send_to_disconnected h sid m t :
   get_sess h (target h sid) = Some t -> s_conn t = None ->
   snd (send_session h sid m) = [] /\
   exists t', get_sess (fst (send_session h sid m)) (target h sid) = Some t' /\ s_conn t' = None /\
-             s_pending t' = s_pending t ++ match filtered t m with Some mm => [mm] | None => [] end.
+             s_pending t' = match filtered t m with Some mm => enqueue (s_pending t) mm | None => s_pending t end.
 Proof.
   intros Ht Hc. destruct (seen_after_proj t m) as [Hsc Hsp].
   rewrite send_session_eq, (deliver_to_session_eq h _ m t Ht), Hc.
   destruct (filtered t m) as [mm|]; cbv beta iota zeta; cbn [fst snd]; (split; [reflexivity|]);
     eexists; (split; [apply get_put_same|]).
   - split; [cbn; congruence|reflexivity].
-  - split; [congruence|]. rewrite app_nil_r. exact Hsp.
+  - split; [congruence|]. exact Hsp.
 Qed.
 
 Lemma filtered_never_closing t m mm : filtered t m = Some mm -> never_closing m = true -> never_closing mm = true.
@@ -1148,7 +1159,7 @@ Corollary send_plain_to_disconnected h sid m t :
   get_sess h (target h sid) = Some t -> s_conn t = None -> (forall l, m <> SJoin l) ->
   snd (send_session h sid m) = [] /\
   exists t', get_sess (fst (send_session h sid m)) (target h sid) = Some t' /\ s_conn t' = None /\
-             s_pending t' = s_pending t ++ [m].
+             s_pending t' = enqueue (s_pending t) m.
 Proof.
   intros Ht Hc Hm. destruct (send_to_disconnected h sid m t Ht Hc) as [Ho [t' [Ht' [Hc' Hp']]]].
   split; [exact Ho|]. exists t'. split; [exact Ht'|]. split; [exact Hc'|]. rewrite Hp'.
